@@ -52,6 +52,10 @@ pub struct Case {
     /// outstanding
     #[serde(default)]
     pub second_peer_closes: bool,
+    /// a wave with a single call to the peer: the caller task is held (yielding) right after its request has been
+    /// written, until the peer's immediate reply has been written, acknowledged and the receiver task has had its turn
+    #[serde(default)]
+    pub reply_overtakes: bool,
 }
 
 #[derive(Debug)]
@@ -115,6 +119,7 @@ fn run_net(c: &Case) -> Result<Result<NetOut, String>, BedErr> {
         let mut second = if c.second_peer_closes { Some(connect_node_named(&bed, &node, "other", u64::MAX, &[]).await?) } else { None };
         let local = tokio::task::LocalSet::new();
         let switched = install_schedule(c.schedule.clone());
+        let hold = crate::netbed::install_hold();
         let outcomes: Rc<RefCell<Vec<CallOutcome>>> = Rc::new(RefCell::new(vec![]));
         let mut problems: Vec<(String, String)> = vec![];
         let mut late: Vec<(Value, usize, usize)> = vec![];
@@ -144,6 +149,7 @@ fn run_net(c: &Case) -> Result<Result<NetOut, String>, BedErr> {
                         }
                     }
                     // issue the wave
+                    hold.set(c.reply_overtakes && p.is_some() && wave.iter().filter(|c| !c.unknown_node).count() == 1);
                     let mut handles = vec![];
                     for (i, call) in wave.iter().enumerate() {
                         let node = node.clone();
@@ -235,6 +241,8 @@ fn run_net(c: &Case) -> Result<Result<NetOut, String>, BedErr> {
                             }
                         }
                         pc.settle().await;
+                        drain().await;
+                        hold.set(false);
                         if c.fault == 1 && w + 1 == n_waves {
                             if let Some(pc) = p.take() {
                                 pc.close_gracefully();
@@ -256,6 +264,7 @@ fn run_net(c: &Case) -> Result<Result<NetOut, String>, BedErr> {
                             }
                         }
                     }
+                    hold.set(false);
                     // without a peer (or after it closed) only time can end the calls
                     for _ in 0..12 {
                         if handles.iter().all(|h| h.is_finished()) {
@@ -356,6 +365,7 @@ pub fn oracle(c: &Case) -> Verdict {
             .class_if(c.waves.len() >= 2 && c.reuse_ids, "caller-ids-reused-after-a-round")
             .class_if(c.fault != 0, "peer-closes")
             .class_if(c.second_peer_closes, "another-peer-closes-meanwhile")
+            .class_if(c.reply_overtakes && c.waves.iter().any(|w| w.iter().filter(|c| !c.unknown_node).count() == 1), "caller-held-until-the-reply-is-routed")
             .class_if(out.switched > 0, "schedule-yields"),
     )
 }
@@ -363,8 +373,9 @@ pub fn oracle(c: &Case) -> Verdict {
 fn strategy() -> impl Strategy<Value = Case> {
     let reply = prop_oneof![4 => Just(Reply::Now), 3 => (0u8..8).prop_map(Reply::After), 2 => Just(Reply::Never), 1 => Just(Reply::Twice), 2 => Just(Reply::NowAndLate)];
     let call = (any::<u8>(), reply, prop::bool::weighted(0.08)).prop_map(|(timeout_s, reply, unknown_node)| Call { timeout_s, reply, unknown_node });
-    (prop::collection::vec(prop::collection::vec(call, 1..7), 1..4), prop::collection::vec(any::<u8>(), 0..6), prop::collection::vec(any::<u8>(), 0..30), 0u8..3, prop_oneof![6 => Just(0u8), 1 => Just(1u8), 1 => Just(2u8), 2 => Just(3u8)], prop::bool::weighted(0.35), prop::bool::weighted(0.25))
-        .prop_map(|(waves, perm, schedule, stray, fault, reuse_ids, second_peer_closes)| Case { waves, perm, schedule, stray, fault, reuse_ids, second_peer_closes })
+    let wave = prop_oneof![1 => prop::collection::vec(call.clone(), 1..2), 3 => prop::collection::vec(call, 1..7)];
+    (prop::collection::vec(wave, 1..4), prop::collection::vec(any::<u8>(), 0..6), prop::collection::vec(any::<u8>(), 0..30), 0u8..3, prop_oneof![6 => Just(0u8), 1 => Just(1u8), 1 => Just(2u8), 2 => Just(3u8)], prop::bool::weighted(0.35), prop::bool::weighted(0.25), prop::bool::weighted(0.4))
+        .prop_map(|(waves, perm, schedule, stray, fault, reuse_ids, second_peer_closes, reply_overtakes)| Case { waves, perm, schedule, stray, fault, reuse_ids, second_peer_closes, reply_overtakes })
 }
 
 // ---- a large request to a peer that is not reading: the call's own timeout must not tear the frame -----------------------
@@ -381,6 +392,10 @@ pub struct StallCase {
     /// both sides offer the distribution-header (atom cache) framing
     #[serde(default)]
     pub header: bool,
+    /// instead of resuming to read, the peer goes away while the request is stuck in the full socket:
+    /// 1 = closes its socket, 2 = resets it, 3 = closes only its sending direction (FIN) and still does not read
+    #[serde(default)]
+    pub goes_away: u8,
 }
 
 pub fn stall_oracle(c: &StallCase) -> Verdict {
@@ -390,7 +405,8 @@ pub fn stall_oracle(c: &StallCase) -> Verdict {
         let c = c2;
         // (the node offers its default flags; whether header framing is negotiated is the peer's choice here)
         let hdr = edp_client::flags::DistributionFlags::DIST_HDR_ATOM_CACHE.as_u64();
-        let (node, mut p) = node_with_peer(&bed, if c.header { u64::MAX } else { u64::MAX & !hdr }).await?;
+        let (node, p) = node_with_peer(&bed, if c.header { u64::MAX } else { u64::MAX & !hdr }).await?;
+        let mut p = Some(p);
         let local = tokio::task::LocalSet::new();
         let returned = Rc::new(RefCell::new(0usize));
         let big = vec![0xABu8; c.kib as usize * 1024];
@@ -419,6 +435,57 @@ pub fn stall_oracle(c: &StallCase) -> Verdict {
                         drain().await;
                     }
                 }
+                if c.goes_away % 4 != 0 {
+                    // the peer disappears instead: every call must still return (connection error or timeout)
+                    let pc = p.take().unwrap();
+                    let mut keep = None;
+                    match c.goes_away % 4 {
+                        1 => pc.close_gracefully(),
+                        2 => drop(pc),
+                        _ => {
+                            {
+                                use std::os::fd::AsRawFd;
+                                unsafe { libc::shutdown(pc.s.as_raw_fd(), libc::SHUT_WR) };
+                            }
+                            keep = Some(pc);
+                        }
+                    }
+                    if c.goes_away % 4 == 3 {
+                        // a peer that keeps its socket open and never reads again leaves the request stuck for as long
+                        // as TCP allows (the call's timeout bounds the wait for the reply, not the write): what is owed
+                        // is that the node notices the end of the peer's stream and carries on
+                        let n2 = node.clone();
+                        let gone = wait_until(Duration::from_secs(20), || !n2.connections().contains_key("peer@127.0.0.1")).await;
+                        for h in hs {
+                            h.abort();
+                        }
+                        drop(keep);
+                        if !gone {
+                            return Err("call-never-returns: the peer ended its stream while a request was stuck in the full socket, and stays registered".to_string());
+                        }
+                        return Ok::<_, String>((vec![], 0, 0));
+                    }
+                    let t0 = std::time::Instant::now();
+                    let mut rounds = 0;
+                    while *returned.borrow() < n_calls && t0.elapsed() < Duration::from_secs(20) {
+                        drain().await;
+                        rounds += 1;
+                        if rounds % 50 == 0 {
+                            advance(Duration::from_secs(1)).await;
+                        }
+                        std::thread::sleep(Duration::from_micros(200));
+                    }
+                    let done = *returned.borrow();
+                    for h in hs {
+                        h.abort();
+                    }
+                    drop(keep);
+                    if done < n_calls {
+                        return Err(format!("call-never-returns: the peer went away while a {} KiB request was stuck in the full socket; {done} of {n_calls} calls returned within 20 s and {} virtual seconds", c.kib, rounds / 50));
+                    }
+                    return Ok::<_, String>((vec![], 0, done));
+                }
+                let mut p = p.take().unwrap();
                 // now the peer reads everything that was and will be written; nobody is answered, every call times out
                 let mut frames: Vec<Vec<u8>> = vec![];
                 let t0 = std::time::Instant::now();
@@ -459,7 +526,11 @@ pub fn stall_oracle(c: &StallCase) -> Verdict {
     });
     let (frames, leftover, returned) = match res {
         Ok(Ok(x)) => x,
+        Ok(Err(e)) if e.starts_with("call-never-returns") => return Verdict::Fail { signature: "call-never-returns".into(), detail: e },
         Ok(Err(e)) => return Verdict::Fail { signature: "harness:netbed".into(), detail: e },
+        Err(BedErr::RealTimeCap) if c.goes_away % 4 != 0 => {
+            return Verdict::Fail { signature: "node-hangs-when-peer-goes-away-during-a-blocked-write".into(), detail: format!("the runtime thread is blocked for good: the peer went away ({}) while a {} KiB request was stuck in the full socket", ["", "closed its socket", "reset the connection", "closed its sending direction"][c.goes_away as usize % 4], c.kib) }
+        }
         Err(BedErr::RealTimeCap) => return Verdict::Fail { signature: "node-hangs".into(), detail: "calls to a stalled peer did not return after it resumed reading".into() },
         Err(BedErr::Setup(e)) => return Verdict::Fail { signature: "harness:netbed".into(), detail: e },
     };
@@ -514,7 +585,7 @@ pub fn stall_oracle(c: &StallCase) -> Verdict {
 }
 
 fn stall_strategy() -> impl Strategy<Value = StallCase> {
-    (prop_oneof![Just(1u32), Just(300), Just(4096), Just(9000), 5000u32..16000], any::<u8>(), any::<u8>(), any::<u8>(), any::<bool>()).prop_map(|(kib, timeout_s, stall_s, later, header)| StallCase { kib, timeout_s, stall_s, later, header })
+    (prop_oneof![Just(1u32), Just(300), Just(4096), Just(9000), 5000u32..16000], any::<u8>(), any::<u8>(), any::<u8>(), any::<bool>(), prop_oneof![3 => Just(0u8), 1 => Just(1u8), 1 => Just(2u8), 1 => Just(3u8)]).prop_map(|(kib, timeout_s, stall_s, later, header, goes_away)| StallCase { kib, timeout_s, stall_s, later, header, goes_away })
 }
 
 pub fn run(run: &mut Run) {
